@@ -371,11 +371,15 @@ pub fn check(c: &Case) -> CheckResult {
         let b = build(&program);
         let router = b.router.clone();
         let (wire2, segs) = (wire.clone(), c.segments.clone());
+        let with_write_timeout = c.reqs.len() % 2 == 1;
         let got = block_on(async move {
             let l = AsyncServer::listen(crate::util::lo0().as_str()).await.map_err(|e| Fail::new("harness-listen", e.to_string()))?;
             let addr = l.local_addr().unwrap();
             let srv = tokio::spawn(async move {
-                let _ = AsyncServer::new(router).serve(l).await;
+                // (with and without a write timeout: the two write paths must frame alike)
+                let srv = AsyncServer::new(router);
+                let srv = if with_write_timeout { srv.write_timeout(Some(Duration::from_secs(20))) } else { srv };
+                let _ = srv.serve(l).await;
             });
             let r = drive_tcp(addr, wire2, segs, expect_n).await;
             srv.abort();
